@@ -254,6 +254,12 @@ def main(argv=None):
                 print('VIOLATION property=%s replay=%s' % (prop, p))
                 print('  witness: %s' % json.dumps(key, sort_keys=True, default=repr)[:600])
                 shown += 1
+        grp = {}
+        for key, _d in unlisted:
+            g = tuple('%s=%s' % (f, key.get(f)) for f in ('kind', 'why', 'start', 'enc') if f in key)
+            grp[g] = grp.get(g, 0) + 1
+        for g, n in sorted(grp.items(), key=lambda t: -t[1])[:30]:
+            print('  group %s: %d' % (' '.join(g), n))
         print('%d unlisted violation(s), %d distinct' % (len(unlisted), len(seen)))
         return 1
     return 0
